@@ -156,6 +156,74 @@ func TestC17(t *testing.T) {
 			rec.Sample(map[string]interface{}{"what": "san", "base": o.Name, "names": desc, "perm": perm})
 		}
 	})
+	// enumerated: every corpus certificate x five fixed permutations of its extension list
+	// (so each lint sees the extension it reads at the first, last and a middle position)
+	fixedPerms := func(n int) [][]int {
+		id := make([]int, n)
+		for i := range id {
+			id[i] = i
+		}
+		rev := make([]int, n)
+		for i := range rev {
+			rev[i] = n - 1 - i
+		}
+		rotL := append(append([]int{}, id[1:]...), id[0])
+		rotR := append([]int{id[n-1]}, id[:n-1]...)
+		sw0 := append([]int{}, id...)
+		sw0[0], sw0[1] = sw0[1], sw0[0]
+		swL := append([]int{}, id...)
+		swL[n-1], swL[n-2] = swL[n-2], swL[n-1]
+		return [][]int{rev, rotL, rotR, sw0, swL}
+	}
+	for ci, o := range co.Certs {
+		if !stats.Mine(ci) {
+			continue
+		}
+		v0, err := gen.ViewCert(o.DER)
+		pc, ok := gen.ParseCert(o.DER)
+		if err != nil || !ok || v0.Extensions() == nil || len(v0.Extensions().Children) < 2 {
+			continue
+		}
+		exts := v0.Extensions().Children
+		seen := map[string]bool{}
+		dup := false
+		for _, x := range exts {
+			if len(x.Children) == 0 {
+				dup = true
+				break
+			}
+			k := string(x.Children[0].Content)
+			dup = dup || seen[k]
+			seen[k] = true
+		}
+		if dup {
+			continue
+		}
+		ref := o.DER
+		if pc.SelfSigned {
+			v0.SelfSign()
+			ref = v0.DER()
+		}
+		for pi, perm := range fixedPerms(len(exts)) {
+			if isIdentity(perm) {
+				continue
+			}
+			v, _ := gen.ViewCert(o.DER)
+			v.Extensions().Children = gen.Permute(v.Extensions().Children, perm)
+			if pc.SelfSigned {
+				v.SelfSign()
+			}
+			c := c17Case{DER: ref, DER2: v.DER(), What: "extensions", Base: o.Name, Perm: perm, Names: []string{fmt.Sprintf("fixed-permutation-%d", pi)}}
+			rec.Eval()
+			rec.Class("extensions_enumerated")
+			if sig, msg := judgeC17(rec, c); msg != "" {
+				if rec.Report("c17", sig, msg, c) {
+					t.Fatalf("c17 %s perm %v: %s: %s", o.Name, perm, sig, msg)
+				}
+			}
+		}
+	}
+	rec.Exhaustive("extension list of every corpus certificate x {reverse, rotate left, rotate right, swap first two, swap last two}", true)
 	rapidRun(t, "extensions", perShard(stats.Scale(4000, 120000)), func(rt *rapid.T) {
 		cc := gen.DrawCert(rt, 2, true)
 		v, err := gen.ViewCert(cc.DER)
